@@ -16,6 +16,9 @@ def make_project(seed, nfiles, workdir, size=0.8):
     # keyed by name/text would confuse
     files.append(('src/twins/TwinA.java', b'/** @author ann */\nclass TwinA {\n  int count = 0;\n  String label = "he said \\"hi\\"";\n  void run() { helper(1); }\n}\n'))
     files.append(('src/twins/TwinB.java', b'class TwinB {\n  void other() {\n    int count = 0;\n    String label = "he said \\"hi\\"";\n    helper(1);\n  }\n  /** @author bob */\n  void run() { helper(1); }\n}\n'))
+    # values with white-space runs, tabs and line breaks inside list-valued attributes (arguments wrapped over
+    # lines, spaced generic types): what a formatter that "tidies" values would touch
+    files.append(('src/twins/Wrapped.java', b'class Wrapped {\n  void w(java.util.Map<String,  Integer> m,\tint  n) throws  Exception {\n    helper(1 +\n        2,\t"a  b",  m.get(  "k"  ));\n    new Wrapped(n\n      + 1);\n  }\n}\n'))
     proj = workdir + '/proj'
     qrun.write_project(proj, files)
     return proj, files
